@@ -4,7 +4,7 @@ import os
 from .. import core
 from ..canvasrun import CanvasRunner, gen_config
 
-MODULES = ["Robsd.Props.C04"]
+MODULES = ["Robsd.Props.C04", "Robsd.Props.C04Wait"]
 GENS = []
 
 
@@ -118,8 +118,49 @@ def run(ctx):
         kinds[adv or "random"] = kinds.get(adv or "random", 0) + 1
         if any(s[1] for s in cfg["steps"]) and len(started) >= 2:
             distinct.add((tuple(cfg["steps"]), tuple(cfg["skip"]), cfg["ncpu"]))
+    # ---- robsd-wait itself (the real source with the kqueue shim) on real child processes
+    import subprocess
+    import time
+    nwait = 0
+    for t in range(ctx.n(6, 60)):
+        k = rng.randint(1, 4)
+        durs = rng.sample([0.15, 0.4, 0.65, 0.9, 1.15], k)
+        kids = [subprocess.Popen(["sleep", str(x)]) for x in durs]
+        order = list(range(k))
+        rng.shuffle(order)
+        allflag = rng.random() < 0.5
+        args = [str(kids[i].pid) for i in order]
+        t0 = time.time()
+        r = subprocess.run([cr.wait] + (["-a"] if allflag else []) + args, capture_output=True, timeout=30)
+        el = time.time() - t0
+        got = [int(x) for x in r.stdout.decode().split()]
+        by_exit = [kids[i].pid for i in sorted(range(k), key=lambda i: durs[i])]
+        for kd in kids:
+            kd.wait()
+        info = dict(argv=["robsd-wait"] + (["-a"] if allflag else []) + ["<pid of sleep %s>" % durs[i] for i in order], printed=got, rc=r.returncode, elapsed=round(el, 2),
+                    stderr=r.stderr.decode(errors="replace")[-200:])
+        if allflag:
+            if r.returncode != 0 or got or el < max(durs) - 0.08:
+                ctx.violation("robsd-wait -a returned after %.2f s printing %s while the longest process runs %.2f s" % (el, got, max(durs)), info)
+        else:
+            want = [int(a) for a in args if int(a) != by_exit[0]]
+            if r.returncode != 0 or got != want or el > min(durs) + 0.2:
+                ctx.violation("robsd-wait returned after %.2f s printing %s; the first exit is after %.2f s and leaves %s" % (el, got, min(durs), want), info)
+        reqs.append("wait %d %s %s" % (1 if allflag else 0, ",".join(a.encode().hex() for a in args), "|".join(str(p_) for p_ in by_exit)))
+        wants.append("%d %s" % (r.returncode, ",".join(map(str, got)) or "-"))
+        infos.append(info)
+        nwait += 1
+    for bad in (["0"], ["abc"], ["-1"], ["99999999999"], ["12", "1x"], [" 7x"]):
+        r = subprocess.run([cr.wait] + bad, capture_output=True, timeout=10)
+        reqs.append("wait 0 %s 1" % ",".join(a.encode().hex() for a in bad))
+        wants.append("%d %s" % (r.returncode, ",".join(r.stdout.decode().split()) or "-"))
+        infos.append(dict(argv=["robsd-wait"] + bad, rc=r.returncode, stderr=r.stderr.decode(errors="replace")[-200:]))
+    kinds["robsd-wait"] = nwait
     ans = ctx.model(reqs) if reqs else []
     for q, a, w, info in zip(reqs, ans, wants, infos):
+        if q.startswith("wait ") and a.strip() != w.strip():
+            ctx.disagreement("Wait.run vs robsd-wait.c (kqueue shim)", dict(request=q, impl=w, model=a, info=info))
+            continue
         if q.startswith("orchp result"):
             # which steps ran is compared as a set: two parallel steps launched back to back stamp
             # their own start in either order (the order constraints are what `orchp accepts` checks)
